@@ -1,1 +1,328 @@
-/-! C18 — property theorems (stub: nothing proved yet). -/
+import B6.Lemmas.ChangeExport
+/-!
+# C18 — Exported change files reproduce the edited world
+
+Model: `B6.Model.ChangeExport` (ingest/yaml.go, `Expression.MarshalYAML/UnmarshalYAML`, `ExpressionFromString`,
+`LatLngFromString`, `FeatureIDFromString`, and the part of `MutableOverlayWorld` the export reads and the
+import writes), after `fixes/C18-*.patch`.  Spec: the map feature id ⇀ (tag key ⇀ value) × body (`SMap`); `abs b s` is
+the map a world denotes (`FindFeatureByID` for every id: existence, every tag, the body).
+
+Standing assumptions, all satisfied by worlds the code builds itself (see the `example`s): `b.IdsOK` /
+`s.FeatsId` — a feature found under an id carries that id; `ModsNodup s.mods` — `ModifiedTags` is a Go map of
+Go maps (one entry per id, one per key).
+-/
+namespace B6.Props.C18
+open B6.Model.ChangeExport
+open B6.Model.Mutable (Id Key)
+open B6.Model.Mutable.AMap (get)
+
+/-! ## the text layer on whole files -/
+
+def textDocs : List Doc → Except TextErr (List Doc)
+  | [] => .ok []
+  | d :: r => do
+    let d' ← textDoc d
+    let r' ← textDocs r
+    pure (d' :: r')
+
+/-- every exported document comes out of YAML encoding and decoding as it went in -/
+def KindStable (s : St) (ord : List Id) : Prop := ∀ d, d ∈ exportDocs s ord → textDoc d = .ok d
+
+theorem textDocs_of_stable (docs : List Doc) (h : ∀ d, d ∈ docs → textDoc d = .ok d) : textDocs docs = .ok docs := by
+  induction docs with
+  | nil => rfl
+  | cons d r ih =>
+    simp only [textDocs, h d List.mem_cons_self, ih (fun x hx => h x (List.mem_cons_of_mem _ hx))]
+    rfl
+
+/-- **C18, main theorem.** Export a world `s` (any order `ord` of its overlay features that lists them all —
+the order the code picks is one of them), push the documents through the YAML text layer, and apply them to
+a fresh world over the same base.  If the documents survive the text layer unchanged (`KindStable`) and
+`Apply` gets through them (whatever `AddFeature`'s validation `acc` is), the re-imported world denotes the
+same map as the edited one: every id exists in one iff in the other, with the same value under every tag key
+and the same body. -/
+theorem export_import_refines {b : Base} {acc : St → Feat → Bool} (hb : b.IdsOK)
+    {s s' : St} (hs : s.FeatsId) (hm : ModsNodup s.mods) (ord : List Id)
+    (hcov : ∀ i, (get s.feats i).isSome → i ∈ ord)
+    (hstable : KindStable s ord) {docs : List Doc}
+    (htext : textDocs (exportDocs s ord) = .ok docs)
+    (himport : importDocs b acc St.empty docs = some s') :
+    abs b s' = abs b s := by
+  rw [textDocs_of_stable _ hstable] at htext
+  cases htext
+  rw [(importDocs_refines hb _ St.empty s' featsId_empty himport).1]
+  exact export_spec b hs hm ord hcov
+
+/-- read pointwise: lookup, existence, every tag and the body agree -/
+theorem export_import_reads {b : Base} {acc : St → Feat → Bool} (hb : b.IdsOK)
+    {s s' : St} (hs : s.FeatsId) (hm : ModsNodup s.mods) (ord : List Id)
+    (hcov : ∀ i, (get s.feats i).isSome → i ∈ ord)
+    (hstable : KindStable s ord) {docs : List Doc}
+    (htext : textDocs (exportDocs s ord) = .ok docs)
+    (himport : importDocs b acc St.empty docs = some s') (id : Id) :
+    ((s'.find b id).isSome = (s.find b id).isSome) ∧
+    (∀ k, (s'.find b id).map (fun f => get f.tags k) = (s.find b id).map (fun f => get f.tags k)) ∧
+    ((s'.find b id).map (·.body) = (s.find b id).map (·.body)) := by
+  have h := congrFun (export_import_refines hb hs hm ord hcov hstable htext himport) id
+  simp only [abs] at h
+  cases h1 : s'.find b id with
+  | none =>
+    cases h2 : s.find b id with
+    | none => simp
+    | some g => simp [h1, h2] at h
+  | some f =>
+    cases h2 : s.find b id with
+    | none => simp [h1, h2] at h
+    | some g =>
+      simp only [h1, h2, Option.map_some, Option.some.injEq] at h
+      refine ⟨rfl, ?_, ?_⟩
+      · intro k
+        have := congrArg (fun fv => fv.tags k) h
+        simpa [viewOf] using this
+      · have := congrArg (fun fv => fv.body) h
+        simpa [viewOf] using this
+
+/-! ## the standing assumptions hold for every world the code can reach -/
+
+/-- the tables are well-formed initially and after every `AddTag` / `RemoveTag` / accepted `AddFeature` -/
+theorem wf_ops {b : Base} (hb : b.IdsOK) {s : St} (h : s.WF) :
+    (∀ id t, (s.addTag b id t).WF) ∧ (∀ id k, (s.removeTag b id k).WF) ∧ (∀ f, (s.addFeature b f).WF) :=
+  ⟨fun id t => ⟨featsId_addTag hb h.1 id t, modsNodup_addTag h.2 id t⟩,
+   fun id k => ⟨featsId_removeTag hb h.1 id k, modsNodup_removeTag h.2 id k⟩,
+   fun f => ⟨featsId_addFeature h.1 f, modsNodup_addFeature h.2 f⟩⟩
+
+/-! ## value kinds through the text layer -/
+
+theorem inferAtom_str {l : List Char} {y : String} (h : inferAtom l = .ok (.str y)) : y = String.ofList l := by
+  unfold inferAtom at h
+  split at h
+  · simp at h
+  · simp at h
+  · split at h
+    · simp at h
+    · simp at h; exact h.symm
+
+theorem infer_str_eq {x y : String} (h : infer x = .ok (.atom (.str y))) : y = x := by
+  unfold infer at h
+  split at h
+  · split at h <;> simp at h
+  · split at h
+    · rename_i a ha
+      simp at h; subst h
+      rw [inferAtom_str ha]; simp
+    · simp at h
+    · simp at h
+
+/-- **every string value keeps its kind** (after the fix): a string tag value or collection literal that
+is not YAML's `null` / `~` comes back as the same string, whatever it looks like — a number, a lat,lng, a
+feature id, a `;`-list -/
+theorem string_kind_stable (x : String) (hn : yamlNull x = false) :
+    reinfer (.atom (.str x)) = some (.ok (.atom (.str x))) := by
+  simp only [reinfer, encode]
+  split
+  · rename_i y hy
+    have := infer_str_eq hy
+    subst this
+    simp [decode, hn, hy]
+  · simp [decode, hn]
+
+/-- a scalar that is stable through the text layer: any non-null string, any int, float, point, id -/
+def AtomStable : Atom → Prop
+  | .str x => yamlNull x = false
+  | _ => True
+
+theorem atom_kind_stable (a : Atom) (h : AtomStable a) : textValue (.atom a) = .ok (.atom a) := by
+  cases a with
+  | str x => simp only [textValue, string_kind_stable x h]
+  | int n => rfl
+  | flt b =>
+    have : reinfer (.atom (.flt b)) = some (.ok (.atom (.flt b))) := by
+      simp only [reinfer, encode]
+      by_cases hb : integralBits b = true <;> simp [hb, decode]
+    simp only [textValue, this]
+  | pt la lo => rfl
+  | fid t ns v => rfl
+  | other x => rfl
+
+/-- value by value: a list is stable if it reads back as itself (`ExpressionFromString` produces such
+lists: two or more parts that are strings, points or ids) -/
+def ValueStable (v : V) : Prop := textValue v = .ok v
+
+theorem textTags_of_stable (ts : List Tag) (h : ∀ t, t ∈ ts → ValueStable t.2) : textTags ts = .ok ts := by
+  induction ts with
+  | nil => rfl
+  | cons t r ih =>
+    obtain ⟨k, v⟩ := t
+    have hv : textValue v = .ok v := h (k, v) List.mem_cons_self
+    simp only [textTags, hv, ih (fun x hx => h x (List.mem_cons_of_mem _ hx))]
+    rfl
+
+theorem textAtom_of_stable (a : Atom) (h : AtomStable a) : textAtom a = .ok a := by
+  simp only [textAtom, atom_kind_stable a h]
+
+theorem textPairs_of_stable (es : List (Atom × Atom)) (h : ∀ e, e ∈ es → AtomStable e.1 ∧ AtomStable e.2) :
+    textPairs es = .ok es := by
+  induction es with
+  | nil => rfl
+  | cons e r ih =>
+    obtain ⟨k, v⟩ := e
+    have hk := textAtom_of_stable k (h (k, v) List.mem_cons_self).1
+    have hv := textAtom_of_stable v (h (k, v) List.mem_cons_self).2
+    simp only [textPairs, hk, hv, ih (fun x hx => h x (List.mem_cons_of_mem _ hx))]
+    rfl
+
+def BodyStable : Body → Prop
+  | .collection es => ∀ e, e ∈ es → AtomStable e.1 ∧ AtomStable e.2
+  | _ => True
+
+theorem textBody_of_stable (bd : Body) (h : BodyStable bd) : textBody bd = .ok bd := by
+  cases bd with
+  | collection es => simp only [textBody, textPairs_of_stable es h]; rfl
+  | generic => rfl
+  | area ps => rfl
+  | relation ms => rfl
+
+/-- `KindStable` follows from the values: every tag value recorded in `ModifiedTags` or carried by an
+overlay feature is stable, and so is every collection literal.  With `string_kind_stable` this covers all
+worlds whose tag values are strings (other than `null` / `~`), ints, floats, points and ids. -/
+theorem kindStable_of_values (s : St) (ord : List Id)
+    (hmods : ∀ e, e ∈ s.mods → ∀ t, t ∈ sets e.2 → ValueStable t.2)
+    (hfeats : ∀ e, e ∈ s.feats → (∀ t, t ∈ e.2.tags → ValueStable t.2) ∧ BodyStable e.2.body) :
+    KindStable s ord := by
+  intro d hd
+  simp only [exportDocs, List.mem_append] at hd
+  rcases hd with hd | hd
+  · simp only [exportMods, List.mem_filterMap] at hd
+    obtain ⟨e, he, hd⟩ := hd
+    split at hd
+    · simp at hd
+    · simp only [Option.some.injEq] at hd; subst hd
+      simp only [textDoc, textTags_of_stable _ (hmods e he)]
+      rfl
+  · simp only [exportFeats, List.mem_filterMap] at hd
+    obtain ⟨id, _, hd⟩ := hd
+    cases hg : get s.feats id with
+    | none => simp [hg] at hd
+    | some f =>
+      simp only [hg, Option.map_some, Option.some.injEq] at hd; subst hd
+      have := hfeats (id, f) (get_some_mem hg)
+      simp only [textDoc, textTags_of_stable _ this.1, textBody_of_stable _ this.2]
+      rfl
+
+/-! ## ordering: references first -/
+
+/-- **ordering lemma.** In any list sorted by a rank that is non-increasing along the list, a feature whose
+rank is strictly larger than that of one of its referrers does not come after that referrer: with ranks
+rising strictly along references (`rank_lt_of_ref`-style facts, checked on every run for the real ranks),
+every reference that is exported precedes its referrer. -/
+theorem sorted_refs_first (rk : Id → Nat) (l : List Id) (hsorted : l.Pairwise (fun x y => rk x ≥ rk y))
+    (a r : Id) (hrank : rk r > rk a) (l1 l2 : List Id) (hl : l = l1 ++ a :: l2) : r ∉ l2 := by
+  intro hr
+  subst hl
+  have h := List.pairwise_append.mp hsorted
+  have h2 := (List.pairwise_cons.mp h.2.1).1 r hr
+  omega
+
+/-! ## what the text layer does to values that are not stable -/
+
+/-- before the fix every string was written bare: one that looks like a lat,lng came back as a point (with
+another rendering, hence under another search token) -/
+theorem bare_string_point_counterexample :
+    decode (encodeBare (.atom (.str "51.50, -0.120"))) = some (.ok (.atom (.pt "515000000" "-1200000"))) := by
+  decide
+
+/-- … one that looks like a feature id as an id -/
+theorem bare_string_id_counterexample :
+    decode (encodeBare (.atom (.str "/point/ns/1"))) = some (.ok (.atom (.fid 0 "ns" 1))) := by decide
+
+/-- … one that contains `;` as a list -/
+theorem bare_string_list_counterexample :
+    decode (encodeBare (.atom (.str "a;b"))) = some (.ok (.list [.str "a", .str "b"])) := by decide
+
+/-- a numeric-looking string is safe even bare: `ExpressionFromString` has no number case (and YAML quotes it) -/
+example : decode (encodeBare (.atom (.str "123"))) = some (.ok (.atom (.str "123"))) := by decide
+example : decode (encodeBare (.atom (.str "1e3"))) = some (.ok (.atom (.str "1e3"))) := by decide
+example : decode (encodeBare (.atom (.str "1,2,3"))) = some (.ok (.atom (.str "1,2,3"))) := by decide
+
+/-- FINDING yaml-null-string: the string `null` makes the exported file undecodable (yaml.v2 treats the
+scalar as null before `UnmarshalYAML` is reached, quoted or not, bare or explicit) -/
+theorem null_string_counterexample :
+    reinfer (.atom (.str "null")) = none ∧ reinfer (.atom (.str "~")) = none := by decide
+
+/-- lists are written as their `;`-joined rendering: a one-element list comes back as a scalar, an int
+element as a string (outside the property: such lists are not produced by `ExpressionFromString`) -/
+theorem list_kind_counterexample :
+    reinfer (.list [.str "a"]) = some (.ok (.atom (.str "a"))) ∧
+    reinfer (.list [.int 3, .str "a"]) = some (.ok (.list [.str "3", .str "a"])) := by decide
+
+/-! ## a concrete world: the hypotheses are satisfiable, the findings are real -/
+
+def ptTag (la lo : String) : Tag := ("point", .atom (.pt la lo))
+/-- the id atom of a model id (collections are type 5 in the code) -/
+def nid (n : Nat) : Atom := .fid (if n / 1000 == 4 then 5 else n / 1000) NS (n % 1000)
+
+def exBaseFeats : List Feat := [
+  ⟨1, [ptTag "515370213" "-1250817", ("name", .atom (.str "one"))], .generic⟩,
+  ⟨2, [ptTag "515360127" "-1251339"], .generic⟩,
+  ⟨3, [ptTag "515359871" "-1240433"], .generic⟩,
+  ⟨4, [ptTag "515371049" "-1239671"], .generic⟩,
+  ⟨1007, [("path", .list [nid 1, nid 2, nid 3, nid 4, nid 1])], .generic⟩,
+  ⟨2009, [], .area [.ids [1007]]⟩,
+  ⟨3010, [], .relation [(1, "stop")]⟩,
+  ⟨4011, [], .collection [(nid 1, .str "a")]⟩]
+
+def exB : Base := baseOf exBaseFeats
+
+/-- `AddFeature`'s validation with S2 answering "valid" -/
+def exAcc (s : St) (f : Feat) : Bool := !(s.validateAdd exB f).isErr
+
+/-- an edit history: plain tag edits on a base point (recorded in `ModifiedTags`), a new point whose name
+looks like a feature id, a path over it, a relation over both, a tag that looks like a lat,lng -/
+def exS : St :=
+  ((((St.empty.addTag exB 1 ("note", .atom (.str "51.5,-0.12"))).removeTag exB 1 "name").addFeature exB
+    ⟨21, [ptTag "515380001" "-1260003", ("name", .atom (.str "/point/ns/1"))], .generic⟩).addFeature exB
+    ⟨1024, [("path", .list [nid 21, nid 2]), ("#highway", .atom (.str "a;b"))], .generic⟩).addFeature exB
+    ⟨3028, [("type", .atom (.int 5))], .relation [(1024, "way"), (21, "stop")]⟩
+
+example : exB.IdsOK := baseOf_idsOK _
+
+example : exS.WF := by
+  have h0 := wf_empty
+  have h1 := (wf_ops (baseOf_idsOK exBaseFeats) h0).1 1 ("note", .atom (.str "51.5,-0.12"))
+  have h2 := (wf_ops (baseOf_idsOK exBaseFeats) h1).2.1 1 "name"
+  have h3 := (wf_ops (baseOf_idsOK exBaseFeats) h2).2.2
+    ⟨21, [ptTag "515380001" "-1260003", ("name", .atom (.str "/point/ns/1"))], .generic⟩
+  have h4 := (wf_ops (baseOf_idsOK exBaseFeats) h3).2.2
+    ⟨1024, [("path", .list [nid 21, nid 2]), ("#highway", .atom (.str "a;b"))], .generic⟩
+  exact (wf_ops (baseOf_idsOK exBaseFeats) h4).2.2
+    ⟨3028, [("type", .atom (.int 5))], .relation [(1024, "way"), (21, "stop")]⟩
+
+/-- the export lists the point before the path before the relation, after the modified-tag document -/
+example : exportOrder exS = [21, 1024, 3028] := by decide
+example : (exportDocs exS (exportOrder exS)).length = 4 := by decide
+
+/-- the documents survive the text layer … -/
+example : (match textDocs (exportDocs exS (exportOrder exS)) with
+    | .ok docs => docs == exportDocs exS (exportOrder exS)
+    | .error _ => false) = true := by decide
+
+/-- … and the import gets through them, validating every feature as it goes -/
+example : (importDocs exB exAcc St.empty (exportDocs exS (exportOrder exS))).isSome = true := by decide
+
+/-- FINDING import-intermediate-state, on the model: the ring 1007 is re-routed away from point 1, then
+point 1 loses its location — both edits are accepted.  Point 1 is referred to by a relation and a collection
+(rank 2), the ring by the area (rank 1): the export lists point 1 first, and the import rejects it because
+the BASE's ring still runs through it.  Importing the ring first would have worked. -/
+def exT : St :=
+  (St.empty.addFeature exB ⟨1007, [("path", .list [nid 2, nid 3, nid 4, nid 2])], .generic⟩).addFeature exB
+    ⟨1, [("name", .atom (.str "gone"))], .generic⟩
+
+theorem intermediate_state_counterexample :
+    exAcc St.empty ⟨1007, [("path", .list [nid 2, nid 3, nid 4, nid 2])], .generic⟩ = true ∧
+    exAcc (St.empty.addFeature exB ⟨1007, [("path", .list [nid 2, nid 3, nid 4, nid 2])], .generic⟩)
+      ⟨1, [("name", .atom (.str "gone"))], .generic⟩ = true ∧
+    exportOrder exT = [1, 1007, 2009, 3010, 4011] ∧
+    importDocs exB exAcc St.empty (exportDocs exT (exportOrder exT)) = none ∧
+    (importDocs exB exAcc St.empty (exportDocs exT [1007, 1, 2009, 3010, 4011])).isSome = true := by decide
+
+end B6.Props.C18
